@@ -372,6 +372,7 @@ def energy_spectra(V, fn):
         return kw
     name = SD + ('calc_resp_uke_spectrum' if fn == 'uke' else 'calc_input_energy_spectrum')
     for out in V.run(name, setup):
+        out.replay_info = dict(module='spectra', entry='energy', fn=fn)
         if not out.no_raise():
             continue
         out.side_conditions()
@@ -401,3 +402,20 @@ def energy_spectra(V, fn):
                 for j in V.idx(0, n, 'j'):
                     out.prove('input-energy-series-is-running-sum(a*v*dt)', T.seq(res[r, j], want[r, j]))
         out.unchanged('x', x)
+
+
+# ------------------------------------------------------ object-level response spectra AFTER the record or the periods changed
+import contracts_c04_cache as C4
+
+_CHANGES3 = ['reset_values', 'add_constant', 'add_series', 'remove_poly/1', 'butter_pass/band', 'response_times=', 'response_times*=c',
+             'gen_response_spectrum(response_times=)', 'remove_rolling_average/values', 'rebase_displacement', 'correct_me']
+
+
+@unit('C03', 'response-spectra-after-the-record-or-the-periods-changed', functions=C4.FUNCS,
+      cases=[dict(op=k) for k in _CHANGES3], modes=('unbounded',), budget_ms=3000)
+def spectra_after_change(V, op):
+    """History read s_a, s_v, s_d -> change the record / the response periods through a public operation -> read again: the object
+    reports the spectra of a freshly constructed object with the NEW record and periods."""
+    ops = dict(C4.COMMON_OPS)
+    ops.update(C4.ACC_OPS)
+    C4.run_op(V, 'AccSignal', op, ops[op], ['s_a', 's_v', 's_d'], prewarm=True)
